@@ -62,6 +62,14 @@ def execute(cfg, prefix, on_point=None, line=False, seam='fork'):
             if cfg.get('slow_upstream'):
                 s.env_wait()
 
+        rf = rowfunc
+        if cfg.get('slow_rowfunc'):
+            # the row function may take arbitrarily long for some rows (an environment wait inside the worker)
+            def rf(row):
+                if cfg['slow_rowfunc'] >> row['i'] & 1:
+                    s.env_wait()
+                rowfunc(row)
+
         def body(s):
             rows = [{'i': k, 'n': 0} for k in range(R)]
             for k in range(R):
@@ -71,7 +79,7 @@ def execute(cfg, prefix, on_point=None, line=False, seam='fork'):
                     rows[k]['wipe'] = True
             out = []
             if seam == 'fork':
-                for r in m.fork(upstream(rows), rowfunc, N, predicate):
+                for r in m.fork(upstream(rows), rf, N, predicate):
                     out.append(r)
                     s.delivered.append(r.get('i', -1))
             elif seam == 'chain2':
@@ -343,6 +351,9 @@ def tasks(tier):
             out.append({'cfg': {'N': N_, 'R': R_, 'mask': mask_, 'feeder': True}, 'mode': 'stateful', 'max_exec': 60000})
         for N_, R_, mask_, boom_ in ((1, 2, 3, 1), (1, 3, 7, 2), (2, 2, 3, 3), (2, 3, 5, 4)):
             out.append({'cfg': {'N': N_, 'R': R_, 'mask': mask_, 'boom': boom_}, 'mode': 'stateful'})
+        # a row function that is slow for some rows (timed waits elsewhere may expire meanwhile)
+        for N_, R_, mask_, slow_ in ((1, 2, 3, 1), (2, 2, 3, 1), (2, 2, 3, 2), (2, 3, 7, 2)):
+            out.append({'cfg': {'N': N_, 'R': R_, 'mask': mask_, 'slow_rowfunc': slow_}, 'mode': 'stateful', 'max_exec': 60000})
         # rows that come back from the workers without any field
         for N_, R_, mask_, wipe_ in ((1, 2, 3, 1), (1, 3, 7, 2), (1, 3, 5, 1), (2, 2, 3, 2), (2, 3, 6, 2)):
             out.append({'cfg': {'N': N_, 'R': R_, 'mask': mask_, 'wipe': wipe_}, 'mode': 'stateful'})
